@@ -273,7 +273,26 @@ def unit_c05_sweep():
                 obs = True
             except errors.CheckError: obs = False
             return None if obs == want else {"expected": "end check %s for this data set (after two earlier data sets with other values under the same CID)" % ("passes" if want else "fails"), "observed": "passes" if obs else "fails"}
-        return [sweep("C05/sweep/IsUnique and DistinctCount through validio.rows", cases(), check, "bounded",
+        # several checks of the same kind in one CID keep separate books (each over its own field)
+        def multi_cases():
+            for op1, t1 in (("<", 3), (">=", 2), ("==", 1)):
+                for op2, t2 in (("<", 2), (">=", 3), ("!=", 2)):
+                    for n in range(0, 4):
+                        for rows in itertools.product([("1", "x", "a"), ("2", "x", "b"), ("3", "y", "c")], repeat=n):
+                            yield (op1, t1, op2, t2, rows)
+        def multi_check(c):
+            op1, t1, op2, t2, rows = c
+            cid = interface.create_cid_from_string('d,format,delimited\nf,id,,,,Integer\nf,name\nf,kind\nc,names,DistinctCount,name %s %d\nc,kinds,DistinctCount,kind %s %d\n' % (op1, t1, op2, t2))
+            text = "".join(",".join(r) + "\n" for r in rows)
+            w1 = OPS[op1](len({r[1] for r in rows}), t1); w2 = OPS[op2](len({r[2] for r in rows}), t2)
+            try:
+                for _ in validio.rows(cid, io.StringIO(text)): pass
+                obs = True
+            except errors.CheckError: obs = False
+            want = w1 and w2
+            return None if obs == want else {"expected": "end of data %s (names %s %d: %s, kinds %s %d: %s)" % ("passes" if want else "fails", op1, t1, w1, op2, t2, w2), "observed": "passes" if obs else "fails"}
+        multi = sweep("C05/sweep/two DistinctCount checks in one CID count their own fields", multi_cases(), multi_check, "bounded", "3 x 3 comparisons x row sequences of 0-3 rows over a 3-row pool", describe=lambda c: {"case": list(c)}, function="checks + validio", unit="C05.sweep")
+        return [multi, sweep("C05/sweep/IsUnique and DistinctCount through validio.rows", cases(), check, "bounded",
                       "IsUnique over 1-3 key fields x row sequences of 0-4 rows (0-6 thorough) over a 4-row pool incl. a field-rejected row x 3 modes; DistinctCount 6 operators x thresholds 0-3 x sequences of 0-3 rows",
                       describe=lambda c: {"case": list(c)}, function="checks + validio", unit="C05.sweep")]
     return NativeUnit("C05.sweep", "end-to-end bounded sweep of the two built-in checks through validio.rows (single check per CID)", ["C05"], run, kind="bounded")
